@@ -69,5 +69,25 @@ CHECKS = {
         note="Lists are non-empty (empty input raises IndexError in one-shot mode - outside the statement); list-valued attributes are passed sorted.",
         technique="reference-partition property testing incl. generated incremental histories",
     ),
+    "C01": dict(
+        text="Round trip + structural invariant of the ITS encoding: all 340 well-formed corpus reactions as written and reversed (exhaustive) and Hypothesis rewritings (renumbering with offset, atom re-ordering, fragment shuffle, reversal, added spectator explicit H): rsmi_to_graph equals RDKit-only side graphs, the ITS is exactly the union with (before, after) order pairs and their difference, its_decompose returns both graphs, its_to_rsmi (both hydrogen modes) keeps the unmapped sides and gives an ITS that matches the input's (identity on maps or own isomorphism). Synthetic (G,H) pairs on a shared node set: every pair on n<=3 (thorough; n<=2 + 1/50 of n=3 in quick) and Hypothesis pairs n<=6 with independent per-side attributes and bond states.",
+        note="'neighbors' is deliberately not compared after decompose (not carried); default-mode its_to_rsmi is compared after folding non-centre explicit H on both sides with an own folding function.",
+        technique="round-trip + invariant property testing (exhaustive small pairs, corpus sweep, Hypothesis rewritings)",
+    ),
+    "C02": dict(
+        text="Independent recomputation of the reaction centre and its contexts: get_rc must equal {bonds with o_G != o_H} + {H-H bonds} with their end atoms and ITS labels exactly, be idempotent, commute exactly with atom-map renumbering, and agree with rsmi_to_its(core=True) and with RDKit-only changed bonds; extract_k(k=0..3) must be the centre / the induced ITS subgraph on an own BFS ball, forming a chain. Domains: 340 corpus reactions + rewritings, every ITS on n<=3 over {C,H} x bond-state pairs, Hypothesis synthetic ITS with H-H bonds and aromatic orders.",
+        note="Default construction only (ignore_aromaticity=False); the is_mtg edge flag is ignored.",
+        technique="differential property testing against an independent recomputation (exhaustive small ITS + corpus + Hypothesis)",
+    ),
+    "C11": dict(
+        text="Reference-model testing of the symmetry layer: Automorphism count/orbits vs brute-force per-component groups on all labelled graphs n<=4 (+1/8 of n=5; thorough: n<=5 complete) and Hypothesis graphs <=9 nodes incl. symmetric families; AutoEst orbits must be a coarsening of the true orbits (and equal an own k-round colour refinement); deduplicate_matches_with_anchor on brute-force match lists must return an order-preserving sub-list of the input's own dicts with one representative per documented class; and SynReactor with pruning must give the same set of distinct reactions as the same reactor fed every raw SubgraphSearchEngine match.",
+        note="Component swaps are excluded as documented. The pruning clause has one recorded finding (C11-pruning-left-only-orbits) attributed by predicate left_only_orbits; estimate-wl-classes and orbit-accuracy assert the classes' docstrings (slightly beyond the statement, quiet on the tree).",
+        technique="reference-model property testing (brute-force automorphism groups) + differential pruned-vs-raw rule application",
+    ),
+    "C18": dict(
+        text="Network canonical form and automorphism data vs brute force on the view digraphs (bipartite and species views, 7 configurations): all networks over 3 species with <=2 reactions under all species permutations and reaction orders (one representative per class; exhaustive in thorough), symmetric families to 14 view nodes, Hypothesis networks <=6 species / 5 reactions with renaming, reordering, id regeneration and one-edit near-misses (iso => identical canonical graph, non-iso => different), CRNCanonicalizer and CRNAutomorphism each against its own documented notion of structure; fault injection: a legal adversarial id() in the canon module must not change any result; WLCanonicalizer documented claims.",
+        note="CRNAutomorphism ignores edge attributes by design (checked on node keys only); stopped_early is inconclusive. Canonical labels 1..N are not claimed by the statement.",
+        technique="metamorphic + reference-model property testing with identity fault injection",
+    ),
 }
 NOT_APPLICABLE = {}
